@@ -1,4 +1,5 @@
 import OutrankModel.Lemmas.MIReal
+import OutrankModel.Lemmas.MIRelabel
 /-!
 # C02 – scores depend on co-occurrence structure, not on numeric category codes
 -/
@@ -12,25 +13,25 @@ def InjOnList (f : Nat → Nat) (l : List Nat) : Prop := ∀ a ∈ l, ∀ b ∈ 
 theorem relabel_invariant (Y X : List Nat) (f g : Nat → Nat) (h : Y.length = X.length) (hn : 0 < X.length)
     (hf : InjOnList f Y) (hg : InjOnList g X) (hfg : (Y.map f = X.map g) ↔ (Y = X)) (cc : Bool) :
     estimator realOps (Y.map f) (X.map g) 1 1 cc = estimator realOps Y X 1 1 cc := by
-  sorry
+  exact estimator_relabel Y X f g h hn hf hg hfg cc
 
 /-- C02-2a: the self-pair handling (no correction) applies when the two vectors are element-wise identical … -/
 theorem dispatch_identical (X : List Nat) (cc : Bool) :
     estimator realOps X X 1 1 cc = estimator realOps X X 1 1 false := by
-  sorry
+  exact estimator_self_cc X cc
 
 /-- C02-2b: … and ONLY then: two different vectors always get the corrected score `H(Y*|X) − H(Y|X)`,
 whatever their code sums. -/
 theorem dispatch_different (Y X : List Nat) (h : Y.length = X.length) (hn : 0 < X.length) (hne : Y ≠ X) :
     estimator realOps Y X 1 1 true = .ok (condEntropy (ystar Y X) X - condEntropy Y X) := by
-  sorry
+  exact estimator_corr Y X h hn hne
 
 /-- C02-3: why the old `np.sum(X - Y) == 0` test violated the property: equal code sums, different vectors,
 and the two branches give different scores. -/
 theorem sum_test_unsound :
     ∃ Y X : List Nat, Y ≠ X ∧ Y.sum = X.sum ∧ Y.length = X.length ∧
       estimator realOps Y X 1 1 true ≠ estimator realOps Y X 1 1 false := by
-  sorry
+  exact estimator_sum_test_unsound
 
 example : InjOnList (fun v => 1000 - v) [0, 1, 0, 2] := by
   intro a ha b hb; simp at ha hb ⊢; omega
